@@ -200,6 +200,30 @@ theorem C14_entry_last_writer_wins (now : Int) (dst src d' : Db) (evs : List Eve
     e'.d.content = if de.d.times.mtime.getD now ≥ se.d.times.mtime.getD 0 then de.d.content else se.d.content :=
   merge_entry_lww now dst src d' evs ⟨hr, hn⟩ ⟨hrs, hns⟩ h pd ps pr de se e' hd hs hu hres hu'
 
+
+/-- **C14 (… and its modification time)**: when the two versions differ in content, the entry carries, wherever the merge leaves
+    it, the modification time of the side that modified it last — the destination's unless the source's is strictly later.
+    (When the two versions have the same content the code may leave the destination's stamp although the source's is later:
+    F20.) -/
+theorem C14_entry_time_of_last_writer (now : Int) (dst src d' : Db) (evs : List Event)
+    (hr : dst.root.isGroup = true) (hn : (uuidsL dst.root.children).Nodup)
+    (hrs : src.root.isGroup = true) (hns : (uuidsL src.root.children).Nodup)
+    (h : merge now dst src = .ok (d', evs))
+    (pd ps pr : List Nat) (de se e' : Entry)
+    (hd : findEntry dst.root pd = some de) (hs : findEntry src.root ps = some se) (hu : de.d.uuid = se.d.uuid)
+    (hres : findEntry d'.root pr = some e') (hu' : e'.d.uuid = se.d.uuid) (hdiff : de.d.content ≠ se.d.content) :
+    e'.d.times.mtime = if de.d.times.mtime.getD now ≥ se.d.times.mtime.getD 0 then de.d.times.mtime else se.d.times.mtime := by
+  obtain ⟨hst, hc⟩ := merge_entry_lww_state now dst src d' evs ⟨hr, hn⟩ ⟨hrs, hns⟩ h pd ps pr de se e' hd hs hu hres hu'
+  by_cases hge : de.d.times.mtime.getD now ≥ se.d.times.mtime.getD 0
+  · rw [if_pos hge] at hc ⊢
+    rcases hst with ⟨_, hm⟩ | ⟨hc2, _⟩
+    · exact hm
+    · exact absurd (hc.symm.trans hc2) hdiff
+  · rw [if_neg hge] at hc ⊢
+    rcases hst with ⟨hc2, _⟩ | ⟨_, hm⟩
+    · exact absurd (hc2.symm.trans hc) hdiff
+    · exact hm
+
 /-- the premises are met by a non-trivial pair: the entry sits in a sub-group in the destination and directly below the root
     in the source, the source's version is newer and wins -/
 def exLwwDst : Db := ⟨.group 1 0 ⟨some 5, none, 0⟩ [.group 2 0 ⟨some 5, none, 0⟩ [.entry ⟨⟨10, 7, ⟨some 20, none, 0⟩⟩, some []⟩]], []⟩
@@ -233,6 +257,29 @@ theorem C14_group_last_writer_wins (now : Int) (dst src d' : Db) (evs : List Eve
     (hres : getPath d'.root pr = some (.group u rc rt rch)) :
     rc = if dt.mtime.getD now ≥ st.mtime.getD 0 then dc else sc :=
   merge_group_lww now dst src d' evs ⟨hr, hn⟩ hfd ⟨hrs, hns⟩ hfs h pd ps pr u dc dt dch sc st sch rc rt rch hpd hps hd hs hres
+
+/-- **C14 (… and the group's modification time)**: when the two versions of a group differ in their own data, the group carries
+    the modification time of the side that modified it last -/
+theorem C14_group_time_of_last_writer (now : Int) (dst src d' : Db) (evs : List Event)
+    (hr : dst.root.isGroup = true) (hn : (uuidsL dst.root.children).Nodup) (hfd : dst.root.uuid ∉ uuidsL dst.root.children)
+    (hrs : src.root.isGroup = true) (hns : (uuidsL src.root.children).Nodup) (hfs : src.root.uuid ∉ uuidsL src.root.children)
+    (h : merge now dst src = .ok (d', evs))
+    (pd ps pr : List Nat) (u dc : Nat) (dt : Times) (dch : List Node) (sc : Nat) (st : Times) (sch : List Node)
+    (rc : Nat) (rt : Times) (rch : List Node) (hpd : pd ≠ []) (hps : ps ≠ [])
+    (hd : getPath dst.root pd = some (.group u dc dt dch)) (hs : getPath src.root ps = some (.group u sc st sch))
+    (hres : getPath d'.root pr = some (.group u rc rt rch)) (hdiff : dc ≠ sc) :
+    rt.mtime = if dt.mtime.getD now ≥ st.mtime.getD 0 then dt.mtime else st.mtime := by
+  obtain ⟨hst, hc⟩ := merge_group_lww_state now dst src d' evs ⟨hr, hn⟩ hfd ⟨hrs, hns⟩ hfs h pd ps pr u dc dt dch sc st sch rc rt rch
+    hpd hps hd hs hres
+  by_cases hge : dt.mtime.getD now ≥ st.mtime.getD 0
+  · rw [if_pos hge] at hc ⊢
+    rcases hst with ⟨_, hm⟩ | ⟨hc2, _⟩
+    · exact hm
+    · exact absurd (hc.symm.trans hc2) hdiff
+  · rw [if_neg hge] at hc ⊢
+    rcases hst with ⟨hc2, _⟩ | ⟨_, hm⟩
+    · exact absurd (hc2.symm.trans hc) hdiff
+    · exact hm
 
 /-- the premises are met by a non-trivial pair: the source renamed the sub-group later -/
 def exLwwGSrc : Db := ⟨.group 1 0 ⟨some 5, none, 0⟩ [.group 2 4 ⟨some 8, none, 0⟩ []], []⟩
